@@ -20,6 +20,7 @@ import (
 	"strconv"
 	"strings"
 	"sync"
+	"syscall"
 
 	"verifharness/vh"
 )
@@ -63,9 +64,9 @@ func newRec(mode string, batch, start int) *rec {
 		sets: map[string]map[string]struct{}{}, nontr: map[string]struct{}{}, sigN: map[string]int{}}
 }
 
-func (r *rec) Eval(n int)                { r.mu.Lock(); r.s.Evals += int64(n); r.mu.Unlock() }
-func (r *rec) Count(name string, n int)  { r.mu.Lock(); r.s.Counters[name] += int64(n); r.mu.Unlock() }
-func (r *rec) Nontrivial(key string)     { r.mu.Lock(); r.nontr[key] = struct{}{}; r.mu.Unlock() }
+func (r *rec) Eval(n int)               { r.mu.Lock(); r.s.Evals += int64(n); r.mu.Unlock() }
+func (r *rec) Count(name string, n int) { r.mu.Lock(); r.s.Counters[name] += int64(n); r.mu.Unlock() }
+func (r *rec) Nontrivial(key string)    { r.mu.Lock(); r.nontr[key] = struct{}{}; r.mu.Unlock() }
 func (r *rec) Note(format string, a ...any) {
 	r.mu.Lock()
 	if len(r.s.Notes) < 20 {
@@ -238,7 +239,10 @@ func ChildMain() {
 	start, _ := strconv.Atoi(f[2])
 	count, _ := strconv.Atoi(f[3])
 	// a fatal runtime error must produce the full goroutine dump on stderr (a file)
-	debug.SetTraceback("all")
+	// "crash": on SIGQUIT every thread prints the stack of the goroutine it is running (with "all" a goroutine running on
+	// another thread shows as "stack unavailable", which on a loaded machine hides the very frame that spins); no core file
+	_ = syscall.Setrlimit(syscall.RLIMIT_CORE, &syscall.Rlimit{Cur: 0, Max: 0})
+	debug.SetTraceback("crash")
 	seed := uint64(0)
 	if s := os.Getenv("VERIF_SEED"); s != "" {
 		if v, err := strconv.ParseUint(s, 10, 64); err == nil {
@@ -266,6 +270,8 @@ func ChildMain() {
 	os.Exit(0)
 }
 
-func derive(seed uint64, label string, idx int) *vh.RNG { return vh.Derive(seed, "C20/"+label, uint64(idx)) }
+func derive(seed uint64, label string, idx int) *vh.RNG {
+	return vh.Derive(seed, "C20/"+label, uint64(idx))
+}
 
 func u64le(v uint64) []byte { var b [8]byte; binary.LittleEndian.PutUint64(b[:], v); return b[:] }
